@@ -50,48 +50,30 @@ def _brute_molecules(uc_frac, Z, D, tol=TOL):
     return bonds, sorted(groups.values())
 
 
-def replay_cell(data):
-    """real API on a P1 crystal built from the scenario (atoms, bonds with cell offsets and lengths)"""
-    from chmpy.crystal import Crystal, UnitCell, SpaceGroup, AsymmetricUnit
-    from chmpy.core.element import Element
-    D = np.array([[float(v) for v in row] for row in DGEN])
+def _check_crystal(c, D, tag):
+    """all claims of the property on one real P1 crystal, against the brute-force reference"""
     inv = np.linalg.inv(D)
-    Z = [int(z) for z in data["Z"]]
-    n = len(Z)
-    f0 = np.array([float(Fraction(v)) for v in data["f0"]])
-    bonds = [(int(a), int(k), tuple(int(x) for x in o), float(Fraction(d))) for a, k, o, d in data["bonds"]]
-    # place atoms: walk over the bonds from atom 0 (unbonded atoms go to well separated spots)
-    frac = {0: f0}
-    dirs = [np.array([1.0, 0.2, 0.1]), np.array([-0.3, 1.0, 0.25]), np.array([0.2, -0.4, 1.0])]
-    todo = True
-    used = 0
-    while todo:
-        todo = False
-        for a, k, o, d in bonds:
-            for (p, q, sgn) in ((a, k, 1), (k, a, -1)):
-                if p in frac and q not in frac:
-                    v = dirs[used % 3] / np.linalg.norm(dirs[used % 3])
-                    used += 1
-                    frac[q] = frac[p] + (v * d) @ inv - sgn * np.array(o)
-                    todo = True
-    spots = [np.array([0.55, 0.6, 0.45]), np.array([0.15, 0.5, 0.8]), np.array([0.8, 0.15, 0.5])]
-    for a in range(n):
-        if a not in frac:
-            frac[a] = f0 + spots[a % 3]
-    uc_frac = np.array([frac[a] for a in range(n)])
-    uc_frac = uc_frac - np.floor(uc_frac)
-    perm = list(data.get("perm") or range(n))           # asymmetric-unit order of the atoms
-    order = sorted(range(n), key=lambda a: perm[a])
-    c = Crystal(UnitCell(D), SpaceGroup(1), AsymmetricUnit([Element[Z[a]] for a in order], uc_frac[order]))
     uca = c.unit_cell_atoms()
     ucf, ucz = np.asarray(uca["frac_pos"], float), [int(z) for z in uca["element"]]
+    n = len(ucz)
     bad = []
+    if n != len(c.asymmetric_unit) * len(c.space_group.symmetry_operations):
+        return []          # coincident atoms were merged: outside the property
+    cart = ucf @ D
+    if n > 1 and min(np.linalg.norm(cart[i] - cart[j]) for i in range(n) for j in range(i + 1, n)) < 0.4:
+        return []
+    rb, groups = _brute_molecules(ucf, ucz, D)
+    if len({(a, k) for a, k, o, d in rb}) != len(rb):
+        return []          # two contacts between the same atoms: outside the property
+    for grp in groups:
+        par = [int(uca["asym_atom"][i]) for i in grp]
+        if len(set(par)) != len(par):
+            return []      # a molecule bonded to its own image (special position): outside the property
     try:
         mols = c.unit_cell_molecules()
         uniq = c.symmetry_unique_molecules()
     except Exception as e:
-        return True, ["%s: %s" % (type(e).__name__, e)]
-    rb, groups = _brute_molecules(ucf, ucz, D)
+        return ["%s: %s: %s" % (tag, type(e).__name__, e)]
     got = sorted(sorted(int(x) for x in m.properties["unit_cell_atoms"]) for m in mols)
     if got != groups:
         bad.append("molecules %s, bonded groups are %s" % (got, groups))
@@ -103,14 +85,21 @@ def replay_cell(data):
     for m in mols:
         idx = [int(x) for x in m.properties["unit_cell_atoms"]]
         pos = np.asarray(m.positions, float)
+        if len(pos) != len(idx):
+            bad.append("molecule %s has %d positions" % (idx, len(pos)))
+            continue
         fr = pos @ inv
         sh = fr - ucf[idx]
         if np.abs(sh - np.round(sh)).max() > 1e-6:
             bad.append("an atom of molecule %s is not a lattice translate of its unit-cell site" % idx)
         if [int(e.atomic_number) for e in m.elements] != [ucz[i] for i in idx]:
             bad.append("elements of molecule %s do not belong to its atoms" % idx)
-        if list(m.properties["asymmetric_unit_atoms"]) != [int(uca["asym_atom"][i]) for i in idx]:
+        if [int(x) for x in m.properties["asymmetric_unit_atoms"]] != [int(uca["asym_atom"][i]) for i in idx]:
             bad.append("asymmetric_unit_atoms of molecule %s misaligned" % idx)
+        if [int(x) for x in m.properties["generator_symop"]] != [int(uca["symop"][i]) for i in idx]:
+            bad.append("generator_symop of molecule %s misaligned" % idx)
+        if [str(x) for x in m.properties["asymmetric_unit_labels"]] != [str(c.asymmetric_unit.labels[int(uca["asym_atom"][i])]) for i in idx]:
+            bad.append("labels of molecule %s misaligned" % idx)
         for a, k, o, d in rb:
             if a in idx and k in idx:
                 dd = np.linalg.norm(pos[idx.index(k)] - pos[idx.index(a)])
@@ -120,11 +109,108 @@ def replay_cell(data):
         if (com < -1e-9).any() or (com >= 1 + 1e-9).any():
             bad.append("centre of mass of molecule %s at fractional %s" % (idx, np.round(com, 4).tolist()))
     cover = sorted(int(x) for m in uniq for x in m.properties["asymmetric_unit_atoms"])
-    if cover != list(range(n)):
+    if cover != list(range(len(c.asymmetric_unit))):
         bad.append("symmetry-unique molecules cover asymmetric atoms %s" % cover)
     if any("asym_mol_idx" not in m.properties for m in mols):
         bad.append("a unit-cell molecule carries no asym_mol_idx")
-    return bool(bad), bad[:4]
+    return ["%s: %s" % (tag, b_) for b_ in bad]
+
+
+def _battery(nat):
+    """P1 crystals with a small molecule straddling every face / edge / corner of the cell, all atom orders,
+    bonds at ordinary length and just inside / outside the bonding threshold"""
+    from chmpy.core.element import Element
+    D = np.array([[float(v) for v in row] for row in DGEN])
+    inv = np.linalg.inv(D)
+    templates = []
+    cov = {z: Element.from_atomic_number(z).cov for z in (1, 6, 7, 8)}
+    for stretch in (None, -0.03, 0.03):
+        dCH = 1.0 if stretch is None else cov[6] + cov[1] + TOL + stretch
+        dCO = 1.2 if stretch is None else cov[6] + cov[8] + TOL - 0.2
+        base = [(6, np.zeros(3)), (1, dCH * np.array([0.6, 0.64, 0.48])), (8, dCO * np.array([-0.8, 0.36, -0.48]))]
+        if nat == 4:
+            base.append((7, np.array([-0.8, 0.36, -0.48]) * dCO + 1.25 * np.array([0.0, 0.6, -0.8])))
+        templates.append(base)
+    templates.append([(6, np.zeros(3)), (8, 1.2 * np.array([0.0, 0.8, 0.6])), (1, np.array([3.1, 2.9, 3.3]))] + ([(7, np.array([3.1, 2.9, 3.3]) + np.array([0.0, 0.0, 1.0]))] if nat == 4 else []))
+    out = []
+    for ti, tmpl in enumerate(templates):
+        for centre in itertools.product((0.02, 0.5, 0.985), repeat=3):
+            for perm in itertools.permutations(range(nat)):
+                if nat == 4 and perm[0] > 1:
+                    continue
+                atoms = [tmpl[i] for i in perm]
+                frac = np.array([np.array(centre) + xyz @ inv for _, xyz in atoms])
+                frac = frac - np.floor(frac)
+                out.append(("template %d at %s order %s" % (ti, centre, perm), [z for z, _ in atoms], frac, 1))
+    # P-1: the asymmetric unit lists some atoms of the molecule by their inverted image, so that a molecule is assembled
+    # from atoms generated by different operations (unit-cell order and asymmetric-unit order then differ)
+    for ti, tmpl in enumerate(templates[:1] + templates[-1:]):
+        for centre in ((0.3, 0.2, 0.27), (0.03, 0.4, 0.3), (0.02, 0.015, 0.03)):
+            for perm in itertools.permutations(range(nat)):
+                if nat == 4 and perm[0] > 1:
+                    continue
+                for flip in itertools.product((0, 1), repeat=nat):
+                    if not any(flip) or (nat == 4 and sum(flip) != 2):
+                        continue
+                    atoms = [tmpl[i] for i in perm]
+                    frac = np.array([np.array(centre) + xyz @ inv for _, xyz in atoms])
+                    frac = np.array([(-f if fl else f) for f, fl in zip(frac, flip)])
+                    frac = frac - np.floor(frac)
+                    out.append(("P-1, template %d at %s order %s inverted %s" % (ti, centre, perm, flip), [z for z, _ in atoms], frac, 2))
+    return D, out
+
+
+def replay_cell(data):
+    """real API on P1 crystals: the scenario itself where it can be realised with the given contact lengths, and a battery of
+    small molecules straddling the cell boundaries in every way (the failing input reported is the first that fails)"""
+    from chmpy.crystal import Crystal, UnitCell, SpaceGroup, AsymmetricUnit
+    from chmpy.core.element import Element
+    D = np.array([[float(v) for v in row] for row in DGEN])
+    inv = np.linalg.inv(D)
+    Z = [int(z) for z in data["Z"]]
+    n = len(Z)
+    bonds = [(int(a), int(k), tuple(int(x) for x in o), float(Fraction(d))) for a, k, o, d in data["bonds"]]
+    crystals = []
+    # the scenario: walk over the bonds; a bond through cell o needs the two atoms on opposite sides of that face
+    frac = {}
+    if bonds:
+        a0, k0, o0, d0 = bonds[0]
+        frac[a0] = np.array([0.97 if oc > 0 else (0.03 if oc < 0 else 0.5) for oc in o0])
+    else:
+        frac[0] = np.array([0.5, 0.5, 0.5])
+    grow = True
+    while grow:
+        grow = False
+        for a, k, o, d in bonds:
+            for (p, q, sgn) in ((a, k, 1), (k, a, -1)):
+                if p in frac and q not in frac:
+                    want = np.array([sgn * oc for oc in o], float)       # direction (fractional) the bond has to point
+                    jit = np.array([[0.31, -0.17, 0.23], [-0.23, 0.29, 0.13], [0.11, 0.19, -0.37]])[len(frac) % 3]
+                    v = (want * (1 + 0.3 * abs(jit)) + jit * (want == 0)) @ D
+                    v = v / np.linalg.norm(v) * d
+                    frac[q] = frac[p] + v @ inv - sgn * np.array(o)
+                    grow = True
+    spots = [np.array([0.55, 0.6, 0.45]), np.array([0.15, 0.5, 0.8]), np.array([0.8, 0.15, 0.5]), np.array([0.3, 0.85, 0.2])]
+    for a in range(n):
+        if a not in frac:
+            frac[a] = spots[a % 4]
+    uc_frac = np.array([frac[a] for a in range(n)])
+    perm = list(data.get("perm") or range(n))
+    realised, _ = _brute_molecules(uc_frac, Z, D)
+    if (uc_frac >= 0).all() and (uc_frac < 1).all() and sorted((a, k, o) for a, k, o, d in realised) == sorted((a, k, o) for a, k, o, d in bonds):
+        order = sorted(range(n), key=lambda a: perm[a])
+        crystals.append(("scenario", [Z[a] for a in order], uc_frac[order], 1))
+    _, batt = _battery(n)
+    crystals += batt
+    for tag, zz, fr, sgn in crystals:
+        try:
+            c = Crystal(UnitCell(D), SpaceGroup(sgn), AsymmetricUnit([Element[z] for z in zz], np.array(fr)))
+            bad = _check_crystal(c, D, tag + " Z=%s frac=%s" % (zz, np.round(fr, 4).tolist()))
+        except Exception as e:
+            bad = ["%s: %s: %s" % (tag, type(e).__name__, e)]
+        if bad:
+            return True, bad[:3]
+    return False, ["%d crystals checked, none fails" % len(crystals)]
 
 
 def replay_unique(data):
